@@ -108,9 +108,10 @@ PROPS = {
         explanation='Open scan proved; recovery behaviour bounded on real files.',
     ),
     'C16': dict(
-        v=['C16_verify'], k=[], b=['c16_chain'],
+        v=['C16_verify', 'C16_append'], k=[], b=['c16_chain'],
+        pairs={'C16_verify': ['bounded:c16_chain'], 'C16_append': ['bounded:c16_chain']},
         level='other',
-        technique='Verus: extracted Block::verify_chain and Chain::verify_chain proved (verification Ok => every height links to its predecessor and is signed when keys are registered; hash/tx-root/signature uninterpreted); bounded native checks of append guards, tamper detection, commit atomicity, replica determinism',
+        technique='Verus: Chain::append proved to admit a block only at tip+1 with the tip hash as prev_hash, a matching transaction root and (beyond the first block) a verifying signature, to advance the tip by exactly that block and to change nothing when it refuses (storage assumed infallible, lock erased); extracted Block::verify_chain and Chain::verify_chain proved (verification Ok => every height links to its predecessor and is signed when keys are registered; hash/tx-root/signature uninterpreted); bounded native checks of append guards, tamper detection, commit atomicity, replica determinism',
         claim='chain walk soundness proved for every stored chain (Verus, crypto uninterpreted); BOUNDED: append guards, single/multi-mutation tamper detection on chains <= 4 blocks, workspace commit/rollback atomicity, state-root determinism',
         explanation='Verify walk proved; the remaining obligations bounded. Open known findings are listed in known_findings.json.',
     ),
